@@ -13,7 +13,7 @@ func init() { Registry["C02"] = checkC02 }
 func checkC02(c *Ctx, r *Report) {
 	r.Explanation = "S-COND (Size~EncodeSW): a receiver field that both Size() and EncodeSW of a box compare with constants is compared with the same constants in the same way (up to negation) in both; O-HDRFIRST: in the Encode/EncodeSW of a box no receiver field that Size() reads (directly or through methods on the receiver) is stored after the call that writes the box header (senc settles its sub-sample flag first); O-MODE: a MdatBox method that adopts a caller's payload (SetData) clears every field IsLazy() decides on, so Size() counts the bytes that Encode writes; W-SE: for every registered box type and every configuration of its discriminants, the symbolic number of bits EncodeSW writes on the decoded abstract structure equals 8*Size() as polynomials " +
 		"over the symbolic counts/lengths, and the header item carries Size() of the same box; T-WRAP: every Encode wrapper allocates exactly int(recv.Size()), encodes the same receiver into it, checks the error and writes sw.Bytes(); " +
-		"S-MEMBER: Size/Encode/EncodeSW of the composites (File, InitSegment, MediaSegment, Fragment) traverse the same members. " +
+		"S-WHOLE: a slice field that Size() counts by its length is not cut to a sub-slice in EncodeSW (a clamped prefix writes fewer entries than the header announces); S-MEMBER: Size/Encode/EncodeSW of the composites (File, InitSegment, MediaSegment, Fragment) traverse the same members. " +
 		"L-MAKEAPPEND: no slice in package mp4 is made with a non-zero length and then only appended to (the decoded box would hold zero entries in front of the real ones, counted by Size() but not what the encoder writes); S-SIZEDEP (also for the boxes W-SE tables as irregular): every receiver field that T.Size() reads, directly or through methods on the same receiver, is also read by T.EncodeSW apart from its own Size() call for the header (three listed exceptions); L-DEADAPPEND: the result of every append in package mp4 is used (a child list rebuilt in a local and never assigned back leaves File.Children, which Size() sums, without the new box); DEP: writeDescriptorSize writes as many size bytes as sizeFieldSizeMinus1 says (what SizeSize() counts), whatever the size value; DEP: bits.FixedSliceWriter.WriteString (modelled by the layout engine as len(s) bytes plus one when the flag is set) writes the terminating zero under a test of its flag parameter itself; O-CLEAN: a trial parser (bool result, run once per candidate on the same box: SencBox.parseAndFillSamples) resets every receiver field it grows with append on every path that may return false (leftovers are walked by Size()/EncodeSW); T-LIVE: Size() of every box type that holds children depends on the Children it holds now (no cached size); W-NARROW: in the functions reachable from the size methods no product of two non-constant values is computed in 32 bits or fewer and only then widened. Decides agreement of the size function with the encoder per configuration; does not decide irregular boxes, numeric loop bounds, or idempotence of encodes that mutate state."
 	wireAssumptions(r)
 	ruleWSE(c, r)
@@ -33,6 +33,10 @@ func checkC02(c *Ctx, r *Report) {
 	if n := ruleSizeEncodeConditions(c, r, map[string]bool{"mp4": true}); n < 10 {
 		r.Undecided("S-COND", "scope:size-encode", "", fmt.Sprintf("only %d box types whose Size() and EncodeSW test a common field against constants found", n))
 	}
+	if n := ruleWholeField(c, r, map[string]bool{"mp4": true, "avc": true, "hevc": true, "av1": true}); n < 40 {
+		r.Undecided("S-WHOLE", "scope", "", fmt.Sprintf("only %d slice fields counted by Size() and touched by EncodeSW found", n))
+	}
+	requireFixture(r, "S-WHOLE", "refList.Refs", func(fc *Ctx, s *Report) { ruleWholeField(fc, s, nil) })
 	if n := ruleHeaderAfterState(c, r, map[string]bool{"mp4": true}); n < 60 {
 		r.Undecided("O-HDRFIRST", "scope", "", fmt.Sprintf("only %d encoders with a header call and a Size() that reads fields found", n))
 	}
